@@ -46,6 +46,8 @@ func pessSteps() []step {
 		lk("lock-exist", "a", txnh.Op{Kind: "lock", CheckExist: true}),
 		lk("lock-onlyifexists", "b", txnh.Op{Kind: "lockrv", OnlyExist: true}),
 		step{"lock(a,b)", []txnh.Op{{Kind: "lock", Keys: []string{"a", "b"}}}},
+		step{"lock-noretry(a,b)", []txnh.Op{{Kind: "lock", Keys: []string{"a", "b"}, NoRetry: true}}},
+		step{"insert(b);lock(a,b)", []txnh.Op{op("insert", "b"), {Kind: "lock", Keys: []string{"a", "b"}}}},
 		step{"insert(b);lock(b)", []txnh.Op{op("insert", "b"), op("lock", "b")}},
 		step{"delete(a)", []txnh.Op{op("delete", "a")}},
 		step{"aggr{lockrv(a)}done", []txnh.Op{{Kind: "aggr-start"}, op("lockrv", "a"), {Kind: "aggr-done"}}},
@@ -125,6 +127,7 @@ func main() {
 	contenders := []contender{
 		{"none", txnh.Mode{}, nil},
 		{"opt:set(a)", txnh.Mode{}, []txnh.Op{op("set", "a"), commit}},
+		{"opt:set(b)", txnh.Mode{}, []txnh.Op{op("set", "b"), commit}},
 		{"pess:lock(a);set(a)", txnh.Mode{Pessimistic: true}, []txnh.Op{op("lock", "a"), op("set", "a"), commit}},
 		{"pess:lock(b);lock(a)", txnh.Mode{Pessimistic: true}, []txnh.Op{op("lock", "b"), op("lock", "a"), op("set", "b"), commit}},
 	}
